@@ -424,6 +424,7 @@ def step (s : St) (line : String) : IO St := do
     if s.snapA.isEmpty then return s
     let s ← quiescentChecks s s.snapA ws
     return { s with snapA := [] }
+  | "SX" :: _ => return s    -- state at a stall (diagnostic)
   | "HSTAT" :: kvs =>
     for w in kvs do IO.println s!"STAT h_{w}"
     return s
